@@ -36,7 +36,7 @@ I == Decode(sc.iset, sc.w, sc.len, DX)
 S0 == [R |-> [r \in RNames |-> IF r = "PC" THEN <<0, 64>> ELSE <<0, 96>>], cpsr |-> <<0, (IF sc.iset = 1 THEN 32 ELSE 0) + 19>>,
        spsr |-> [m \in SpsrNames |-> <<0, 16>>], elr |-> Zero,
        sys |-> [SCTLR |-> MkWordBits(<< <<22, 1>> >>), SCR |-> Zero, HCR |-> Zero, HSCTLR |-> Zero, VBAR |-> Zero, MVBAR |-> Zero,
-                HVBAR |-> Zero, NSACR |-> Zero, DFSR |-> Zero, DFAR |-> Zero, MPUIR |-> Zero],
+                HVBAR |-> Zero, NSACR |-> Zero, CPACR |-> <<0, 3>>, DFSR |-> Zero, DFAR |-> Zero, MPUIR |-> Zero],
        mem |-> [devs |-> <<[b |-> Zero, n |-> 256]>>, base |-> <<[j \in 1..256 |-> j % 256]>>, w |-> <<>>],
        ev |-> [evreg |-> 0, wfe |-> 0, wfi |-> 0],
        cfg |-> [arch |-> 7, pmsa |-> TRUE, sec |-> TRUE, virt |-> FALSE, lpae |-> FALSE, v7r |-> FALSE]]
